@@ -197,6 +197,7 @@ theorem next_parallel_src_eq_model (fuel : Nat) (it : Thick.ParallelsIterator) (
   | none => rfl
   | some r => cases r <;> rfl
 
+set_option linter.unusedSimpArgs false in -- the extra simp lemmas serve rewrites of the source (`if so == Left` for the `match`)
 /-- **`ParallelsIterator::new` (regenerated) = the hand model**, every line, thickness and stroke offset; `fuel` is the
 hand model's loop bound `loopFuel` (the skipped centre line never needs more: `thick_points_total`). -/
 theorem ParallelsIterator_new_src_eq_model (l : Line) (t : Int) (so : Thick.StrokeOffset) :
@@ -208,9 +209,11 @@ theorem ParallelsIterator_new_src_eq_model (l : Line) (t : Int) (so : Thick.Stro
   thick_simp [int_sq, tdiv_two]
   by_cases h : l.start = l.stop
   · simp only [h, decide_true, ↓reduceIte]
-    cases so <;> (split <;> rename_i hx <;> rw [hx])
+    cases so <;> (try simp only [reduceCtorEq, decide_false, decide_true, ↓reduceIte, Bool.false_eq_true]) <;>
+      (split <;> rename_i hx <;> rw [hx])
   · simp only [h, decide_false, ↓reduceIte, Bool.false_eq_true]
-    cases so <;> (split <;> rename_i hx <;> rw [hx])
+    cases so <;> (try simp only [reduceCtorEq, decide_false, decide_true, ↓reduceIte, Bool.false_eq_true]) <;>
+      (split <;> rename_i hx <;> rw [hx])
 
 /-- **`Iterator::next` of `ParallelsIterator` (regenerated) = the hand model**: the `i64` threshold test
 `i64::from(acc).pow(2) > threshold`, one `next_parallel`, the accumulator update per `Normal` / `Extra`, the side swap. -/
